@@ -74,7 +74,9 @@ var (
 	gPaths    = []string{"", "/", "/a", "/a/", "/A", "/a/b", "/a/./b", "/a/c/../b", "/c/..", "/a/b/", "/../a", "/a/../../b"}
 	gQueries  = []string{"", "?x=1", "?x=1&y=2", "?y=2&x=1", "?x=1&x=2", "?x=2&x=1", "?x=1&x=1", "?x=2", "?x=2&y=1", "?a=1&b=2&c=3", "?a=2&b=3&c=1",
 		// one key three times: the same distinct values in different multiplicities
-		"?t=a&t=a&t=b", "?t=a&t=b&t=b", "?t=b&t=a&t=a", "?t=a&t=b"}
+		"?t=a&t=a&t=b", "?t=a&t=b&t=b", "?t=b&t=a&t=a", "?t=a&t=b",
+		// a value that ends in a slash (an IRI as a parameter); an escaped separator inside a key or a value
+		"?u=https://b.example/", "?u=https://b.example", "?q=x=1", "?q%3dx=1", "?a=1%26b=2", "?a=1&b=2"}
 	gFrags    = []string{"", "#f"}
 	subScheme = []string{"http", "HTTPS"}
 	subHosts  = []string{"example.com", "EXAMPLE.com", "example.com:8080"}
